@@ -7,6 +7,7 @@
 #include "../sim/sim.hpp"
 
 #include <algorithm>
+#include <map>
 #include <sys/mman.h>
 #include <sys/wait.h>
 #include <unistd.h>
@@ -305,6 +306,10 @@ struct CallResult
 };
 
 // Executes one integrator call with the entropy seam set to `seed`; never throws.
+// The region vector of a request lives as long as the history: a caller that repeats a request passes the same vector
+// object again (Integrate_MC takes it by non-const reference), so anything the library did to it carries over.
+static std::map<std::string, std::vector<double>> g_regions;
+
 CallResult run_call(const CallSpec& c, uint32_t seed)
 {
 	CallResult r;
@@ -404,9 +409,19 @@ CallResult run_call(const CallSpec& c, uint32_t seed)
 	else
 	{
 		std::function<double(std::vector<double>&, const double)> f = [&](std::vector<double>& x, const double) { return observe(x.data(), (int) x.size()); };
-		std::vector<double> region = c.lo;
-		region.insert(region.end(), c.hi.begin(), c.hi.end());
-		r.value = libphysica::Integrate_MC(f, region, c.ncalls, method);
+		std::string key;
+		for(double v : c.lo)
+			key += hexf(v) + ",";
+		for(double v : c.hi)
+			key += hexf(v) + ",";
+		auto it = g_regions.find(key);
+		if(it == g_regions.end())
+		{
+			std::vector<double> region = c.lo;
+			region.insert(region.end(), c.hi.begin(), c.hi.end());
+			it = g_regions.insert({key, region}).first;
+		}
+		r.value = libphysica::Integrate_MC(f, it->second, c.ncalls, method);
 	}
 	r.entropy_draws = entropy_draws_total() - before;
 	r.inner_bad		= F.inner_bad;
